@@ -143,6 +143,10 @@ def oversize_history(rng, jump=False):
         if h.buflen + frag >= CAP:
             h.emit(step('p', 22, 0x0303, body), 'error TooLarge')
             refused += 1
+            if refused == 1:      # a foreign content type is refused with Tag even when it would not fit either
+                other = rng.choice((20, 21, 23, 24, 0))
+                h.emit(step('p', other, 0x0303, body), 'error Tag')
+                h.emit(step('p', other, 0x0303, b'\x01\x02'), 'error Tag')
             if refused == 1:      # exactly reaching 10 MiB is refused as well ...
                 exact = body[:CAP - h.buflen]
                 h.emit(step('p', 22, 0x0303, exact), 'error TooLarge')
